@@ -268,6 +268,16 @@ def random_cpp(seed, fnptr=False, wrapped=False, layout=False, plain=False, wrap
             for ai, (ty, nm) in enumerate(meth.args):
                 if nm and rng.random() < 0.12:
                     meth.args[ai] = ("struct CTup2_i32__Pair", nm)
+    # now and then a trait outside a group shares an entry name with a trait inside it, while no two traits of the group do
+    for gname, (mand, opt) in sorted(m.groups.items()):
+        inside = [t for t in mand + opt if t != "Clone"]
+        outside = [t for t in m.traits if t not in mand + opt and t != "Clone" and not m.traits[t].rettmp_fields and not any(t in g[0] + g[1] for g in m.groups.values())]
+        if inside and outside and rng.random() < 0.5:
+            src = m.traits[rng.choice(inside)].methods[0].name
+            if sum(1 for t in inside for mm in m.traits[t].methods if mm.name == src) == 1:
+                tgt = m.traits[rng.choice(outside)]
+                if all(mm.name != src for mm in tgt.methods):
+                    tgt.methods[0].name = src
     # UserThing and Settings first: later user declarations and functions mention them
     user = [(0, USER_DECLS_CPP[0]), (0, USER_DECLS_CPP[2])]
     user += [(rng.randint(0, 12), u) for u in rng.sample(USER_DECLS_CPP[1:2] + USER_DECLS_CPP[3:], rng.randint(2, len(USER_DECLS_CPP) - 2))]
